@@ -50,11 +50,11 @@ func Ldexp(frac Decimal, exp int) Decimal {
 		return frac
 	}
 
-	if exp < minUnbiasedExponent {
+	if exp < minUnbiasedExponent-maxUnbiasedExponent-maxDigits {
 		return zero(frac.Signbit())
 	}
 
-	if exp > maxUnbiasedExponent+39 {
+	if exp > maxUnbiasedExponent-minUnbiasedExponent+maxDigits {
 		return inf(frac.Signbit())
 	}
 
@@ -88,7 +88,7 @@ func New(sig int64, exp int) Decimal {
 		sig *= -1
 	}
 
-	if exp < minUnbiasedExponent+19 {
+	if exp < minUnbiasedExponent-19 {
 		return zero(neg)
 	}
 
